@@ -9,7 +9,7 @@ Driver section of C03x: runs the implementation-shaped models `Bc7.decodeBlock` 
 (+ the output-precision conversions) on the blocks of a case line and prints one FNV-1a-32 hash per block
 over U8 ++ U16(le) ++ F32(le) of the 16 pixels; `tbl` lines print the model's copy of the source literals.
 -/
-namespace Dds.Drv
+namespace Dds.Drv.C03x
 open Dds.BcTables
 
 def hexVal (c : UInt8) : Option Nat :=
@@ -108,4 +108,8 @@ def runC03x (line : String) : String :=
     | _, _ => "bad-case"
   | _ => "bad-case"
 
+end Dds.Drv.C03x
+
+namespace Dds.Drv
+def runC03x : String → String := C03x.runC03x
 end Dds.Drv
